@@ -32,7 +32,7 @@ type Opts struct {
 	SmallInt bool
 }
 
-var hotRunes = []rune{'"', '\\', '\n', '\r', '\t', '¬', '{', '}', ';', '$', '(', ')', '[', ']', '~', '@', '^', '\'', '`', ':', '#', '«', '»', ' ', ',', 0xFEFF, 'n', 'é', '世', 0x1F600}
+var hotRunes = []rune{'"', '\\', '\n', '\r', '\t', '¬', '{', '}', ';', '$', '(', ')', '[', ']', '~', '@', '^', '\'', '`', ':', '#', '«', '»', ' ', ',', 0xFEFF, 'n', 'é', '世', 0x1F600, '€', 'ì', '笑', 0xAC, 0xC2, 0x29e + 64, 0xA0, 0x7f, 0x1b}
 
 var hotStrings = []string{
 	`{"k": "v"}`, "{\"k\":\n 1}", `{"a¬b"}`, `{"`, `"}`, `{"}`, ";; $x 1", "$x", "$1", `\n`, `\\`, `\"`, `\`, "¬¬", "¬", "a\\", "\\\"", "nil", "true", "(+ 1 2)", "; c", "\r\n", `{"x": "¬"}`, "{\"k\": \"v\"}\n",
@@ -46,6 +46,11 @@ func Str(t *rapid.T, label string, o Opts) string {
 	}
 	n := rapid.IntRange(0, 6).Draw(t, label+"#")
 	var sb strings.Builder
+	// JSON-looking wrapper around arbitrary content: the shape that switches the printer to raw form
+	jsonish := rapid.IntRange(0, 7).Draw(t, label+"json") == 7
+	if jsonish {
+		sb.WriteString(`{"`)
+	}
 	for i := 0; i < n; i++ {
 		c := rapid.IntRange(0, 9).Draw(t, label+"c")
 		switch {
@@ -63,6 +68,9 @@ func Str(t *rapid.T, label string, o Opts) string {
 				sb.WriteRune(rapid.SampledFrom(hotRunes).Draw(t, label+"h"))
 			}
 		}
+	}
+	if jsonish {
+		sb.WriteString(rapid.SampledFrom([]string{`"}`, `}`, `": 1}`, `"]}`}).Draw(t, label+"jend"))
 	}
 	// the two documented-excluded classes are planted explicitly so that callers
 	// which keep them see them often
